@@ -16,5 +16,8 @@ let table : (string * (z list -> z list)) list = [
   ("aruns", run_aruns);
   ("aa_spans", run_aa_spans);
   ("hair_spans", run_hair_spans);
+  ("dash_new", run_dash_new);
+  ("dash", run_dash);
+  ("dash_geo", (fun _ -> [Model.Zneg (Model.XI (Model.XO (Model.XO Model.XH)))]));
   ("hair_px", (fun _ -> [Model.Zneg (Model.XI (Model.XO (Model.XO Model.XH)))]));
 ]
